@@ -1,4 +1,5 @@
 import AnyDB.Lemmas.CrashKeepStep
+import AnyDB.Props.C01All
 /-!
 # C05 over whole histories: the data of a region nobody names survives every crash
 
@@ -239,6 +240,31 @@ theorem C05_history (ops₁ ops₂ : List Op) (hr1 : NoReopen ops₁) (hr2 : NoR
   have ha := al_run Db.init ops₁ linv_init al_init hr1 hnp
   have hf2 := fineRun_of_ok (run Db.init ops₁) _ ops₂ hrel hinv hi hr2 ok2
   exact C05_history_data _ _ ops₂ hrel hinv hi ha hr2 hf2 j slj hsj hunt hjr f hfl hfv k img hc
+
+
+theorem okRun_eqUpTo (r r' : Ref) (ops : List Op) (h : EqUpTo r r') (hok : OKRun r ops) : OKRun r' ops := by
+  induction ops generalizing r r' with
+  | nil => trivial
+  | cons op t ih =>
+    have hs := eqUpTo_step r r' op h
+    exact ⟨hok.1, (small_eqUpTo _ _ hs).mp hok.2.1, ih _ _ hs hok.2.2⟩
+
+/-- … and with reopens anywhere in the history before the sync (`ReadyRun`: each in a state where every live region has been
+written at least once) -/
+theorem C05_history_all (ops₁ ops₂ : List Op) (hready : ReadyRun Db.init ops₁) (hr2 : NoReopen ops₂) (hok : OKRun [] (ops₁ ++ ops₂))
+    (j : Nat) (slj : Slot) (hsj : (run Db.init ops₁).slot? j = some slj) (hunt : ∀ op ∈ ops₂, ¬Touches slj.md.id op)
+    (hjr : j < (run Db.init ops₁).rfile.length)
+    (f : FileD) (hfl : slj.md.start + slj.md.len ≤ f.volatile.length)
+    (hfv : ∀ i, i < f.volatile.length → f.volatile[i]? = (run Db.init ops₁).mem.get? i)
+    (k : Nat) (img : List UInt8)
+    (hc : CrashImage ((f.apply .sync).run ((((run (run Db.init ops₁) ops₂).log.drop (run Db.init ops₁).log.length).take k).flatMap dataEv)) img) :
+    ((run (run Db.init ops₁) ops₂).slot? j).map (·.md) = some slj.md ∧
+    ∀ i, i < slj.md.len → img[slj.md.start + i]? = (run Db.init ops₁).mem.get? (slj.md.start + i) := by
+  obtain ⟨ok1, ok2⟩ := okRun_append [] ops₁ ops₂ hok
+  obtain ⟨_, g⟩ := good_run Db.init [] ops₁ good_init ok1 hready
+  obtain ⟨ρ', hrel, he⟩ := g.rel
+  have hf2 := fineRun_of_ok (run Db.init ops₁) ρ' ops₂ hrel g.rinv g.inf hr2 (okRun_eqUpTo _ _ ops₂ he ok2)
+  exact C05_history_data _ _ ops₂ hrel g.rinv g.inf g.al hr2 hf2 j slj hsj hunt hjr f hfl hfv k img hc
 
 end AnyDB.C05r
 
